@@ -213,6 +213,11 @@ def decStep (docs : List Doc) (s : String) : Option (FileView Doc) :=
     let d ← decNat d; let m ← decNat m
     let doc ← docs[d]?
     pure (.ok m doc)
+  | ["p", d, m] => do
+    -- the path is made to denote another file (a symlink is re-pointed): an edit of the file view
+    let d ← decNat d; let m ← decNat m
+    let doc ← docs[d]?
+    pure (.ok m doc)
   | ["x"] => some .missing
   | ["d", m] => (decNat m).map .unreadable
   | ["u", m] => (decNat m).map .unreadable
@@ -271,12 +276,34 @@ def reloadTags (st0 : RState Doc) (views : List (FileView Doc)) : List String :=
       here ++ go r.1 fv (match fv with | .ok _ t => t :: seenTexts | _ => seenTexts) rest
   (go st0 (.ok (st0.modified.getD 0) st0.source) [st0.source] views).eraseDups
 
+/-- path kinds: `f` plain file, `l` the path is a symlink to the file, `d` a directory component of
+the path is a symlink. The model does not distinguish them: the FileView is what the path resolves to. -/
+def pathKindTags (pk : String) (stepsS : String) : Option (List String) :=
+  let rp := if (decList ',' stepsS).any (fun s => s.startsWith "p:") then ["repoint"] else []
+  match pk with
+  | "f" => some rp
+  | "l" => some ("path-symlink-file" :: rp)
+  | "d" => some ("path-symlink-dir" :: rp)
+  | _ => none
+
+/-- a file view whose poll makes the loop call `handle_error` -/
+def isReported (fv : FileView Doc) : Bool :=
+  match fv with
+  | .missing => true
+  | .unreadable _ => true
+  | .ok _ t => (parseDoc t).isNone || t.kind == .lossy
+
 def handleReload (docsS initS stepsS : String) (obs : List String) : Answer :=
   match mapM? decDoc (decList ';' docsS) with
   | none => badCase "docs"
   | some docs =>
-    match splitOnChar ':' initS, mapM? (decStep docs) (decList ',' stepsS) with
-    | [d0, m0, forget], some views =>
+    let initF := splitOnChar ':' initS
+    let pk := match initF with
+      | [_, _, _] => "f"
+      | [_, _, _, k] => k
+      | _ => "?"
+    match initF.take 3, mapM? (decStep docs) (decList ',' stepsS), pathKindTags pk stepsS with
+    | [d0, m0, forget], some views, some pkTags =>
       match (decNat d0).bind (docs[·]?), decNat m0, decBool forget with
       | some doc0, some m0, some forget =>
         let mt : Option Mtime := if forget then none else some m0
@@ -287,7 +314,7 @@ def handleReload (docsS initS stepsS : String) (obs : List String) : Answer :=
         | some st0, [implS] =>
           let states := pollAll parseDoc codeFixed st0 views
           let model := ",".intercalate (renderState "init" st0 :: states.map (fun p => renderState (actionName p.1) p.2))
-          let tags := "reload" :: reloadTags st0 views
+          let tags := "reload" :: (reloadTags st0 views ++ pkTags)
           let implParts := splitOnChar ',' implS
           match mapM? decPollObs implParts with
           | none =>
@@ -310,12 +337,13 @@ def handleReload (docsS initS stepsS : String) (obs : List String) : Answer :=
                   let fixedOk := (specHistory parseDoc mt doc0 i0 (List.zip views fixedObs)).isNone
                   let cls := if fixedOk ∧ implS = model ∧ tags.contains "mtime-consumed-by-failed-read"
                     then "reload-mtime-consumed-by-failed-read"
+                    else if pk ≠ "f" ∧ why = "changed-not-applied" then "symlink-target-edit-not-seen"
                     else "reload-" ++ String.ofList (why.toList.takeWhile (fun c => c.isAlpha || c == '-'))
                   s!"FAIL:{why} at poll {i};sig=C15/{cls}"
               { model, spec, tags }
         | _, _ => badCase "arity"
       | _, _, _ => badCase "init"
-    | _, _ => badCase "steps"
+    | _, _, _ => badCase "steps"
 
 
 /-! ### (b) the real reloader thread (child processes) -/
@@ -341,8 +369,14 @@ structure HistAnswer where
 def handleHistory (docs : List Doc) (hist : String) (implS : String) : Option HistAnswer :=
   match splitOnChar '>' hist with
   | [initS, stepsS] =>
-    match splitOnChar ':' initS, mapM? (decTStep docs) (decList ',' stepsS) with
-    | [d0, m0], some steps =>
+    let initF := splitOnChar ':' initS
+    -- optional: path kind (f l d) and stderr kind (n = /dev/null, p = pipe with closed reading end)
+    let (pk, ek) := match initF with
+      | [_, _] => ("f", "n")
+      | [_, _, k, e] => (k, e)
+      | _ => ("?", "?")
+    match initF.take 2, mapM? (decTStep docs) (decList ',' stepsS), pathKindTags pk stepsS, (ek == "n" || ek == "p") with
+    | [d0, m0], some steps, some pkTags, true =>
       match (decNat d0).bind (docs[·]?), decNat m0 with
       | some doc0, some m0 =>
         match initState parseDoc (some m0) doc0 with
@@ -355,7 +389,15 @@ def handleHistory (docs : List Doc) (hist : String) (implS : String) : Option Hi
           let views : List (FileView Doc) := steps.filterMap (fun s => match s with | .edit fv => some fv | .longWait => none)
           let tags := (reloadTags st0 views).filter (· ≠ "no-mtime") ++
             (if obs.any (fun o => !o.polled) then ["slow-rate-sleeps"] else []) ++
-            (if steps.contains .longWait then ["long-wait"] else [])
+            (if steps.contains .longWait then ["long-wait"] else []) ++ pkTags ++
+            (if ek = "p" then
+               ["stderr-closed-pipe"] ++
+               -- a reported poll failure followed (later) by a valid change that must still be applied
+               (let rec go (seenErr : Bool) : List (FileView Doc) → Bool
+                  | [] => false
+                  | fv :: rest => (seenErr && (match fv with | .ok _ t => (parseDoc t).isSome | _ => false)) || go (seenErr || isReported fv) rest
+                if go false views then ["error-report-then-valid-change"] else [])
+             else [])
           let fail : Option String :=
             match splitOnChar ',' implS with
             | [] => some "empty observation;sig=C15/thread-observation"
@@ -367,13 +409,18 @@ def handleHistory (docs : List Doc) (hist : String) (implS : String) : Option Hi
                   if ps.length ≠ steps.length then some "observation shape;sig=C15/thread-observation" else
                   match specThread m0 doc0 a0 al0 (List.zip steps ps) with
                   | none => none
-                  | some (i, why) => some (s!"{why} at step {i};sig=C15/thread-" ++
-                      String.ofList (why.toList.takeWhile (fun c => c.isAlpha || c == '-')))
+                  | some (i, why) =>
+                    let reportedBefore := (steps.take i).any (fun st => match st with | .edit fv => isReported fv | .longWait => false)
+                    let cls :=
+                      if ek = "p" ∧ reportedBefore then "poll-loop-dies-on-error-report"
+                      else if pk ≠ "f" ∧ why = "changed-not-applied" then "symlink-target-edit-not-seen"
+                      else "thread-" ++ String.ofList (why.toList.takeWhile (fun c => c.isAlpha || c == '-'))
+                    some s!"{why} at step {i};sig=C15/{cls}"
                 | _, _ => some "unreadable observation;sig=C15/thread-observation"
               | _, _ => some ("unreadable observation (" ++ implS ++ ");sig=C15/thread-observation")
           some { model, fail, tags }
       | _, _ => none
-    | _, _ => none
+    | _, _, _, _ => none
   | _ => none
 
 def handleThread (docsS histsS : String) (obs : List String) : Answer :=
